@@ -648,7 +648,7 @@ pub fn run_diff(
         stats.shapes.insert(mt.shape_hash());
         stats.bump(&format!("op.{}", vop.name()));
         // (the sandbox location carries the worker's pid: not part of a run's identity)
-        out.log_hash = hash_bytes(out.log_hash, format!("{:?}{:?}{:?}", vop, mn, sn).replace(&sb.root, "<SB>").as_bytes());
+        out.log_hash = hash_bytes(out.log_hash, format!("{:?}{:?}{:?}", vop, mn, sn).replace(&sb.root, "<SB>").replace(&sb.base, "<SBBASE>").as_bytes());
         out.log_hash = hash_bytes(out.log_hash, &mt.full_hash().to_le_bytes());
         // the model follows Memfs (it only steers generation and the domain filter)
         let pre_t = m.t.clone();
@@ -909,8 +909,8 @@ pub fn run_twin(prop: &str, base: &Sandbox, venv: &Env, pre: &Tree, mut src: Src
         out.ops.push(vop.clone());
         stats.steps += 1;
         let step = out.ops.len() - 1;
-        let na = format!("{:?}", normalise_order(&oa)).replace(&a.root, "<SB>");
-        let nb = format!("{:?}", normalise_order(&ob)).replace(&b.root, "<SB>");
+        let na = format!("{:?}", normalise_order(&oa)).replace(&a.root, "<SB>").replace(&a.base, "<SBBASE>");
+        let nb = format!("{:?}", normalise_order(&ob)).replace(&b.root, "<SB>").replace(&b.base, "<SBBASE>");
         let what = if prop == "C05" { "spelling" } else { "wrapper" };
         let mut v: Option<Violation> = None;
         if let Some(d) = exec::ENTRY_MISMATCH.with(|mm| mm.borrow_mut().take()) {
